@@ -1,9 +1,11 @@
 """Contracts for src/gbigsmiles/forcefield_helper.py (the assigner cache of C20) and the typing entry point of MolGen."""
-from pyvc.registry import cls, contract, module_global, specfn
-from pyvc.sorts import BOOL, INT, REAL, STR, NRef, Opaque, Opt, Ref, Tuple
+from pyvc.registry import cls, contract, lemma, module_global, specfn
+from pyvc.sorts import BOOL, INT, REAL, STR, Dict, NRef, Opaque, Opt, Ref, Tuple
 
 # ghost fields: the file names an assigner object was built from
-cls("SMARTS_ASSIGNMENTS", "forcefield_helper", built_smarts=Opt(STR), built_nb=Opt(STR))
+cls("SMARTS_ASSIGNMENTS", "forcefield_helper", built_smarts=Opt(STR), built_nb=Opt(STR),
+    _type_dict=Dict(STR, INT), _type_dict_rev=Dict(INT, STR), _rule_dict=Dict(STR, STR), _type_param=Dict(STR, Ref("FFParam")))
+cls("FFParam", "forcefield_helper", mass=REAL, charge=REAL, sigma=REAL, epsilon=REAL, bond_type_name=STR, bond_type_id=INT)
 module_global("forcefield_helper", "_global_assignment_class", NRef("SMARTS_ASSIGNMENTS"))
 module_global("forcefield_helper", "_global_smarts_rule_file", Opt(STR))
 module_global("forcefield_helper", "_global_nonbonded_itp_file", Opt(STR))
@@ -60,3 +62,46 @@ contract("mol_gen.MolGen.get_forcefield_types", props=["C20"],
          ensures=list(_GFT), labels=_GFT,
          modifies=["global.forcefield_helper._global_assignment_class", "global.forcefield_helper._global_smarts_rule_file",
                    "global.forcefield_helper._global_nonbonded_itp_file", "SMARTS_ASSIGNMENTS.built_smarts", "SMARTS_ASSIGNMENTS.built_nb"])
+
+
+# ---- the rule table of the assigner (C20: "exactly one parameter set per atom ... depends only on the chemistry") ---------------------------------------------
+# Every atom's parameters are looked up as  _type_param[get_type(get_type(type name of the winning rule))]  : name -> numeric id -> name.  That round trip is the
+# identity exactly when names and ids determine each other; this representation invariant is what _read_smarts_rules establishes, whatever the file contains.
+_TABLE = {
+    "forall_str(lambda t: implies(t in self._type_dict, self._type_dict[t] in self._type_dict_rev and self._type_dict_rev[self._type_dict[t]] == t))":
+        "every-type-name-maps-to-an-id-that-maps-back-to-it",
+    "forall(lambda i: implies(i in self._type_dict_rev, self._type_dict_rev[i] in self._type_dict and self._type_dict[self._type_dict_rev[i]] == i))":
+        "every-id-maps-to-a-name-that-maps-back-to-it",
+    "forall_str(lambda r: implies(r in self._rule_dict, self._rule_dict[r] in self._type_dict))": "every-rule-names-a-type-that-has-an-id",
+}
+_IDS = "opls_counter >= 0 and forall(lambda i: implies(i in self._type_dict_rev, 0 <= i and i < opls_counter))"
+contract("forcefield_helper.SMARTS_ASSIGNMENTS._read_smarts_rules", props=["C20"],
+         params=dict(self=Ref("SMARTS_ASSIGNMENTS"), filename=Opt(STR)), returns=None,
+         ensures=list(_TABLE), labels={**_TABLE, _IDS: "ids-are-the-numbers-below-the-counter"},
+         raises_may={"OSError": "True", "ValueError": "True"},          # unreadable file; a rule line that does not have four '|'-separated columns
+         modifies=["SMARTS_ASSIGNMENTS._type_dict@self", "SMARTS_ASSIGNMENTS._type_dict_rev@self", "SMARTS_ASSIGNMENTS._rule_dict@self"],
+         loops={1: dict(anchor="line in smarts_file", locals={"opls_counter": INT},
+                        modifies=["dict@self._type_dict", "dict@self._type_dict_rev", "dict@self._rule_dict"],
+                        inv=list(_TABLE) + [_IDS])})
+
+# get_type translates in both directions: an id to its name, a name to its id (KeyError for anything else)
+_GT_ID = {"result == self._type_dict_rev[type]": "an-id-is-translated-to-its-name"}
+contract("forcefield_helper.SMARTS_ASSIGNMENTS.get_type#by_id", props=["C20"],
+         params=dict(self=Ref("SMARTS_ASSIGNMENTS"), type=INT), returns=STR,
+         raises={"KeyError": "type not in self._type_dict_rev"}, ensures=list(_GT_ID), labels=_GT_ID, modifies=[], allocates=False)
+_GT_NAME = {"result == self._type_dict[type]": "a-name-is-translated-to-its-id"}
+contract("forcefield_helper.SMARTS_ASSIGNMENTS.get_type#by_name", props=["C20"],
+         params=dict(self=Ref("SMARTS_ASSIGNMENTS"), type=STR), returns=INT,
+         raises={"KeyError": "type not in self._type_dict"}, ensures=list(_GT_NAME), labels=_GT_NAME, modifies=[], allocates=False)
+_GP = {"result is self._type_param[self._type_dict_rev[type]]": "the-parameter-set-of-the-name-the-id-stands-for"}
+contract("forcefield_helper.SMARTS_ASSIGNMENTS.get_ffparam#by_id", props=["C20"],
+         params=dict(self=Ref("SMARTS_ASSIGNMENTS"), type=INT), returns=Ref("FFParam"),
+         raises={"KeyError": "type not in self._type_dict_rev or self._type_dict_rev[type] not in self._type_param"},
+         ensures=list(_GP), labels=_GP, modifies=[], allocates=False)
+
+# the look-up of get_type_assignments, get_ffparam(get_type(_rule_dict[rule])), reaches the parameter set of the type the rule names: name -> id -> name is the identity
+lemma("typing_lookup_is_by_the_rules_own_type", dict(a=Ref("SMARTS_ASSIGNMENTS"), r=STR),
+      "a._rule_dict[r] in a._type_dict and a._type_dict[a._rule_dict[r]] in a._type_dict_rev and a._type_dict_rev[a._type_dict[a._rule_dict[r]]] == a._rule_dict[r]",
+      hyps=[c.replace("self.", "a.") for c in _TABLE] + ["r in a._rule_dict"], props=["C20"],
+      note="instance of the table invariant established by _read_smarts_rules; with get_type#by_name / get_type#by_id / get_ffparam#by_id this is "
+           "get_ffparam(get_type(name)) is _type_param[name]")
